@@ -81,7 +81,7 @@ CLAIMED["C19"] = {
     "category": "other",
     "text": "Premises of the cursor lemma decided on MIR: sections() establishes n * entry_size <= len(sections) (64-bit product of the zero-extended fields) and shndx == 0 || shndx < n, with diverging failing edges; next() has a single loop with exactly one cursor advance by entry_size and one counter decrement per iteration, hands out the loop-head cursor, yields iff section_type() != Unused and stops iff the counter is 0; get()/string_table() classify entry_size exactly {40 -> ELF32 struct, 64 -> ELF64 struct, else panic} with matching pointee types; both header structs equal the gABI layouts and every decoding method reads its specified field; the SHT table.",
     "design_ref": "DESIGN.md §4 C19",
-    "note": TB + "; the named ElfSectionFlags constants equal the ELF gABI sh_flags bits (E6); name()/string_table() follow an address stored in the tag (documented external memory) and are outside the bounds claim; cursor = base + (n - remaining) * es is a hand proof over the decided premises",
+    "note": TB + "; sections() rejects exactly (E1x); the named ElfSectionFlags constants equal the ELF gABI sh_flags bits (E6); name()/string_table() follow an address stored in the tag (documented external memory) and are outside the bounds claim; cursor = base + (n - remaining) * es is a hand proof over the decided premises",
     "technique": "guard facts incl. disjunctive merge facts + loop-carried variable pairing + exact interval classifier + layout/read-set tables",
 }
 
@@ -89,7 +89,7 @@ CLAIMED["C03"] = {
     "category": "other",
     "text": "The iterator's transition function decided on MIR: tags() starts a TagIter at offset 0 over exactly the loaded structure's payload field (region byte 8 onwards); next() reads the header at buffer.as_ptr() + offset, stores round8(offset + size_of Header + payload_len) = round8(offset + size) (linear/remainder normal form), yields ref_from_slice(&buffer[offset..new offset]).unwrap() with bounds-checked slicing; end test first, assert offset < len dominating the raw read; write-set per exit (None path writes nothing), derived Clone, who-may-construct; ModuleIter = find(type == Module numerically) then cast::<ModuleTag>, over a fresh tags(). By induction this is the specification's walk for every tag sequence; panics are the listed controlled ones.",
     "design_ref": "DESIGN.md §4 C03",
-    "note": TB + "; relies on C14 (item address/extent), C15 (cast), C20 (numeric type equality); std Iterator::find/Option::map contracts",
+    "note": TB + "; next() has no explicit rejection beyond offset >= len (T4x); relies on C14 (item address/extent), C15 (cast), C20 (numeric type equality); std Iterator::find/Option::map contracts",
     "technique": "value terms of iterator state transitions + remainder normal form + guard dominance + write-set per exit",
 }
 
